@@ -306,35 +306,51 @@ impl<K, V, A: Allocator> CaoHashMap<K, V, A> {
         K: Borrow<Q>,
         Q: Eq + ?Sized,
     {
-        let i = self.find_ind(hash, key);
-        if self.hashes()[i] != 0 {
-            if std::mem::needs_drop::<K>() {
-                std::ptr::drop_in_place(self.keys.as_ptr().add(i));
-            }
-
-            let result = std::ptr::read(self.values.as_ptr().add(i));
-            self.hashes_mut()[i] = 0;
-
-            // if the consecutive buckets are not empty, move them back, so lookups dont fail
-            // and they aren't in their optimal position
-            //
-            let mut i = i; // track the last empty slot
-            let mut j = (i + 1) % self.capacity();
-            while self.hashes()[j] != 0 {
-                // if the jth item is not in its optimal bucket, then move it back to the empty
-                // slot
-                if (self.hashes()[j] % self.capacity() as u64) != j as u64 {
-                    self.hashes_mut()[i] = self.hashes()[j];
-                    std::ptr::swap(self.keys.as_ptr().add(i), self.keys.as_ptr().add(j));
-                    std::ptr::swap(self.values.as_ptr().add(i), self.values.as_ptr().add(j));
-                    i = j;
-                }
-                j = (j + 1) % self.capacity();
-            }
-
-            return Some(result);
+        let mut i = self.find_ind(hash, key);
+        if self.hashes()[i] == 0 {
+            return None;
         }
-        None
+        if std::mem::needs_drop::<K>() {
+            std::ptr::drop_in_place(self.keys.as_ptr().add(i));
+        }
+        let result = std::ptr::read(self.values.as_ptr().add(i));
+
+        // backward shift deletion: move the following entries of the probe chain into the hole,
+        // so lookups that probed past the removed slot still find them
+        let capacity = self.capacity();
+        let mut j = i;
+        loop {
+            j = (j + 1) % capacity;
+            let h = self.hashes()[j];
+            if h == 0 {
+                break;
+            }
+            // the entry in `j` can fill the hole in `i`, unless its home slot is (cyclically)
+            // after the hole, in (i, j]
+            let home = self.home_slot(h);
+            let home_after_hole = if i <= j {
+                i < home && home <= j
+            } else {
+                i < home || home <= j
+            };
+            if !home_after_hole {
+                self.hashes_mut()[i] = h;
+                std::ptr::copy_nonoverlapping(
+                    self.keys.as_ptr().add(j),
+                    self.keys.as_ptr().add(i),
+                    1,
+                );
+                std::ptr::copy_nonoverlapping(
+                    self.values.as_ptr().add(j),
+                    self.values.as_ptr().add(i),
+                    1,
+                );
+                i = j;
+            }
+        }
+        self.hashes_mut()[i] = 0;
+        self.count -= 1;
+        Some(result)
     }
 
     pub fn contains<Q>(&self, key: &Q) -> bool
@@ -415,9 +431,7 @@ impl<K, V, A: Allocator> CaoHashMap<K, V, A> {
     {
         let len = self.capacity;
 
-        // improve uniformity via fibonacci hashing
-        // in wasm sizeof usize is 4, so multiply our already 32 bit hash
-        let mut ind = (needle.wrapping_mul(2654435769) as usize) % len;
+        let mut ind = self.home_slot(needle);
         let hashes = self.hashes();
         let keys = self.keys.as_ptr();
         loop {
@@ -430,6 +444,13 @@ impl<K, V, A: Allocator> CaoHashMap<K, V, A> {
             }
             ind = (ind + 1) % len;
         }
+    }
+
+    /// The bucket where the probe sequence of `hash` starts
+    fn home_slot(&self, hash: u64) -> usize {
+        // improve uniformity via fibonacci hashing
+        // in wasm sizeof usize is 4, so multiply our already 32 bit hash
+        (hash.wrapping_mul(2654435769) as usize) % self.capacity
     }
 
     fn hashes(&self) -> &[u64] {
